@@ -275,18 +275,17 @@ pub fn obl_action_position(s: &mut Src, ctx: &mut Ctx, df18: bool, track_some: b
     let both = slots[0].is_some() && slots[1].is_some();
     let (gpc, gpa, hvc, hva) = unsafe { (GP_CALLS, GP_ARGS, HV_CALLS, HV_ARGS) };
     let pc = &post.coords;
-    if level == 0 {
-        return;
-    }
+    // `level` is a concrete bit mask selecting clause groups (1 single-slot, 2 pairing / publication,
+    // 4 invariant + untouched attributes, 8 track contents), so that each CBMC run stays small
     if !both {
-        if level == 2 {
+        if level & 1 == 0 {
             return;
         }
         vcheck!(ctx, gpc == 0, "[C13] no pairing is attempted before an even and an odd report are stored");
         vcheck!(ctx, pc.altitudes[0] == slots[0] && pc.altitudes[1] == slots[1], "[C13] a position report is stored in the slot of its parity, the other slot is kept");
         vcheck!(ctx, coor_eq(&AirplaneCoor { altitudes: pc.altitudes, ..pre.coords }, pc), "[C13] with a single stored report the published position and distance are unchanged");
     } else {
-        if level == 1 {
+        if level & 2 == 0 {
             return;
         }
         let (s0, s1) = (slots[0].unwrap(), slots[1].unwrap());
@@ -317,7 +316,7 @@ pub fn obl_action_position(s: &mut Src, ctx: &mut Ctx, df18: bool, track_some: b
             }
         }
     }
-    if level < 4 {
+    if level & 12 == 0 {
         return;
     }
     // representation invariant (C14): preserved by the step
@@ -330,7 +329,7 @@ pub fn obl_action_position(s: &mut Src, ctx: &mut Ctx, df18: bool, track_some: b
     let tl_pre = pre.track.as_ref().map_or(0, |t| t.len());
     let tl_post = post.track.as_ref().map_or(0, |t| t.len());
     vcheck!(ctx, tl_post == tl_pre || tl_post == tl_pre + 1, "[C14] a position report extends the track by at most one entry");
-    if tl_pre == 0 && tl_post == 1 {
+    if level & 8 != 0 && tl_pre == 0 && tl_post == 1 {
         if let Some(t) = post.track.as_ref() {
             let last = t[0];
             vcheck!(ctx, coor_eq(&last, &pre.coords), "[C14] the entry appended to the track is the superseded record (its position is the previously published one)");
